@@ -3088,42 +3088,43 @@ func ParseDuration(s string) (time.Duration, error) {
 		// If the last two characters are "ms" then parse as milliseconds.
 		// Otherwise just use the last character as the unit of measure.
 		unit = string(a[i])
+		var mult time.Duration
 		switch a[i] {
 		case 'n':
-			if i+1 < len(a) && a[i+1] == 's' {
-				unit = string(a[i : i+2])
-				d += time.Duration(n)
-				i += 2
-				continue
+			if i+1 >= len(a) || a[i+1] != 's' {
+				return 0, ErrInvalidDuration
 			}
-			return 0, ErrInvalidDuration
+			unit = string(a[i : i+2])
+			mult = time.Nanosecond
+			i++
 		case 'u', 'µ':
-			d += time.Duration(n) * time.Microsecond
+			mult = time.Microsecond
 		case 'm':
 			if i+1 < len(a) && a[i+1] == 's' {
 				unit = string(a[i : i+2])
-				d += time.Duration(n) * time.Millisecond
-				i += 2
-				continue
+				mult = time.Millisecond
+				i++
+			} else {
+				mult = time.Minute
 			}
-			d += time.Duration(n) * time.Minute
 		case 's':
-			d += time.Duration(n) * time.Second
+			mult = time.Second
 		case 'h':
-			d += time.Duration(n) * time.Hour
+			mult = time.Hour
 		case 'd':
-			d += time.Duration(n) * 24 * time.Hour
+			mult = 24 * time.Hour
 		case 'w':
-			d += time.Duration(n) * 7 * 24 * time.Hour
+			mult = 7 * 24 * time.Hour
 		default:
 			return 0, ErrInvalidDuration
 		}
 		i++
-	}
 
-	// Check to see if we overflowed a duration
-	if d < 0 && !isNegative {
-		return 0, fmt.Errorf("overflowed duration %d%s: choose a smaller duration or INF", measure, unit)
+		// Check to see if this component would overflow a duration.
+		if n > int64((math.MaxInt64-d)/mult) {
+			return 0, fmt.Errorf("overflowed duration %d%s: choose a smaller duration or INF", measure, unit)
+		}
+		d += time.Duration(n) * mult
 	}
 
 	if isNegative {
